@@ -8,6 +8,7 @@ Model: YouVerif/C08/Model.lean (`step`, `run`).  `Safe c s ops` is the call disc
   * `NonNeg`: after every operation no visible validator has a negative stake or token total.
 -/
 import YouVerif.C08.ProofsProps
+import YouVerif.C08.ProofsHandlers
 
 namespace YouVerif.C08
 
@@ -41,34 +42,52 @@ theorem revert_keeps_stats (c : Cfg) (ops : List Op) (h : Safe c St.init ops) (i
     (hr : revertTo (run c St.init ops) id = some s') : s'.stats = summarize (listed s') :=
   ((run_inv c ops St.init Inv.init h).revertTo hr).stats_eq
 
-/-! ### Not proved in this round (statements kept, checked by the implementation-level oracle on every case) -/
+/-! ### Handler-level histories: no call discipline has to be assumed
 
-def sumTok (l : List Dlg) : Int := (l.map (·.token)).sum
-def sumStk (l : List Dlg) : Int := (l.map (·.stake)).sum
+`Op.hl c` (ProofsHandlers.lean) describes the calls the tree makes: creations with `stake = token / unit`, updates of a
+field outside the sums, the stale `old` of the forced settlement (reward-like fields only), take-effect deposits,
+withdrawals, status changes, delegations (positive values, as `PreCheck` enforces), settlements, penalties of ANY amount,
+snapshots/reverts, Finalise, IntermediateRoot, reload, Copy.  `RemoveValidator` and raw updates of a total are excluded. -/
 
-/-- totals = own + delegations, every stake = token / unit -/
+/-- totals = own + delegations, every stake = token / unit (the property's second clause, for one record) -/
 def ValWF (u : Int) (v : Val) : Prop :=
   v.token = v.selfToken + sumTok v.dlgs ∧ v.stake = v.selfStake + sumStk v.dlgs ∧
   v.selfStake = v.selfToken / u ∧ ∀ x ∈ v.dlgs, x.stake = x.token / u
 
-/-- handler-level operations (no raw update of a total) -/
-def Op.handler : Op → Bool
-  | .upd _ f _ => !(f == .token || f == .stake || f == .selfToken || f == .selfStake)
-  | .updStale .. => false
-  | .remove _ => false
-  | .deleg .. => false
-  | .create _ _ _ token stake _ _ _ => decide (0 ≤ token) && stake == token / 1000000000000000000
-  | _ => true
+/-- **Totals and stakes add up**, for every handler-level history: each visible validator's token and stake totals equal
+    its own part plus its delegations', its own stake and every delegation's stake equal the token amount divided by
+    the stake unit. (Also: own tokens ≥ 0, every delegation > 0, delegations sorted by delegator.) -/
+theorem token_stake_sums (c : Cfg) (ops : List Op) (hall : ∀ op ∈ ops, op.hl c = true) (a : Addr) (v : Val)
+    (hv : get (run c St.init ops).vals a = some v) : ValWF c.unit v :=
+  have h := (run_sinv c ops St.init (SInv.init _) hall).get hv
+  ⟨h.tok, h.stk, h.self, h.comp⟩
 
-/-- `token_stake_sums`: full statement, NOT proved (sampled: oracle clause (2) after every op of every case). -/
-def token_stake_sums_statement : Prop :=
-  ∀ (c : Cfg) (ops : List Op), c.unit = 1000000000000000000 → (∀ op ∈ ops, op.handler = true) →
-    ∀ a v, get (run c St.init ops).vals a = some v → ValWF c.unit v
+/-- `Safe` is not an artificial restriction: handler-level histories satisfy it by themselves (the callers pass the
+    stored record, or a copy differing in reward-like fields, as `old`; no total ever goes negative). -/
+theorem handlers_safe (c : Cfg) (hu : 0 < c.unit) (ops : List Op) (hall : ∀ op ∈ ops, op.hl c = true) :
+    Safe c St.init ops :=
+  hl_safe c hu ops St.init (SInv.init _) hall
+
+/-- **The statistics equal the recomputation** for every handler-level history — no `Safe` hypothesis. -/
+theorem stats_eq_recompute_handlers (c : Cfg) (hu : 0 < c.unit) (ops : List Op) (hall : ∀ op ∈ ops, op.hl c = true) :
+    (run c St.init ops).stats = summarize (listed (run c St.init ops)) :=
+  stats_eq_recompute c ops (handlers_safe c hu ops hall)
+
+theorem clamp_never_fires_handlers (c : Cfg) (hu : 0 < c.unit) (ops : List Op) (hall : ∀ op ∈ ops, op.hl c = true)
+    (a : Addr) (v : Val) (hv : get (run c St.init ops).vals a = some v) :
+    decrK (run c St.init ops).stats v.key = decrU (run c St.init ops).stats v.key :=
+  clamp_never_fires c ops (handlers_safe c hu ops hall) a v hv
+
+theorem index_eq_dom_handlers (c : Cfg) (hu : 0 < c.unit) (ops : List Op) (hall : ∀ op ∈ ops, op.hl c = true) (a : Addr) :
+    a ∈ (run c St.init ops).index ↔ (get (run c St.init ops).vals a).isSome :=
+  index_eq_dom c ops (handlers_safe c hu ops hall) a
+
+/-! ### Not proved yet -/
 
 /-- `delegation_links_agree`: full statement, NOT proved, and false without the extra hypothesis that no penalty
     consumes a whole delegation (`penalty_unlinks_counterexample`, known finding F-C08f). -/
 def delegation_links_agree_statement : Prop :=
-  ∀ (c : Cfg) (ops : List Op), (∀ op ∈ ops, op.handler = true) → (∀ op ∈ ops, ∀ a x, op ≠ .penal a x) →
+  ∀ (c : Cfg) (ops : List Op), (∀ op ∈ ops, op.hl c = true) → (∀ op ∈ ops, ∀ a x, op ≠ .penal a x) →
     ∀ d a x v, getAcct (run c St.init ops).accts d = some x → get (run c St.init ops).vals a = some v →
       (x.dlgs.contains a ↔ (findDlg v.dlgs d).isSome)
 
